@@ -1,7 +1,8 @@
 SPECIFICATION Spec
 CONSTANTS
   Series = {"s1", "s2"}
-  Times = {-3, -2, -1, 0, 1, 2, 3, 4, 5, 6, 8}
+  TOff = 0
+  TimesRaw = {0, 1, 2, 3, 4, 5, 6, 7, 8, 9, 11}
   Vals = {1, 2}
   Types = {"f", "h", "fh"}
   Apps = {"a1", "a2"}
@@ -10,8 +11,13 @@ CONSTANTS
   Acts = {"NewAppender", "Append", "Commit", "Rollback"}
   Apis = {"v1", "v2"}
   Rej = {FALSE, TRUE}
-  DelRanges = {}
+  DelLo = {}
+  DelHi = {}
   MaxPend = 4
+  AllowKF = {"KF-C01-2"}
+  KFInitOpts = TRUE
+  KFV1Hist = TRUE
+  Balanced = TRUE
   EmitMode = "none"
 INVARIANTS C01_Exact InoSorted OohSorted EmitWalk
 CHECK_DEADLOCK FALSE
